@@ -376,17 +376,34 @@ func newEnv() *env {
 	return &env{Env: qh.NewEnv("c24", modelDB(0)), cur: 0}
 }
 
-// reset makes table t hold exactly the subset and u its fixed contents.
-func (e *env) reset(subset int) {
-	e.Act("delete t")
-	e.Act("delete u")
+// reset makes table t hold exactly the subset and u its fixed contents: the
+// tables are dropped and created again (admin requests, not under test) and
+// filled by insert statements; the result is read back and must be right.
+func (e *env) reset(subset int) error {
 	m := modelDB(subset)
-	for _, name := range []string{"t", "u"} {
-		for _, r := range m.Tables[name].Rows {
-			e.Act(qh.InsertText(m.Tables[name], r))
+	var err error
+	if perr := lib.Try(func() {
+		for _, name := range []string{"t", "u"} {
+			qry.DoAdmin(e.DB, "drop "+name, nil)
+			qry.DoAdmin(e.DB, m.Tables[name].Schema(), nil)
+			for _, r := range m.Tables[name].Rows {
+				e.Act(qh.InsertText(m.Tables[name], r))
+			}
+			rows, rerr := e.contents(name, false)
+			if rerr != nil {
+				err = rerr
+				return
+			}
+			if rowsText(rows) != rowsText(m.Tables[name].Rows) {
+				err = fmt.Errorf("after inserting %s table %s holds %s", rowsText(m.Tables[name].Rows), name, rowsText(rows))
+				return
+			}
 		}
+	}); perr != nil {
+		return fmt.Errorf("%s", lib.PanicText(perr))
 	}
 	e.cur = subset
+	return err
 }
 
 // contents reads a table through the query layer (key index and index a).
@@ -432,7 +449,6 @@ func checkCase(c *lib.Ctx, e *env, subset int, s *stmt) {
 		c.Count("undecided", 1)
 		return
 	}
-	e.reset(subset)
 	text := s.Text()
 	fail := func(class, format string, a ...any) {
 		if class != "" && os.Getenv("VERIF_DEV_KNOWN") != "" {
@@ -446,6 +462,10 @@ func checkCase(c *lib.Ctx, e *env, subset int, s *stmt) {
 		}
 		c.Fail(class, failCase{subset, s}, "%s | t = %s | %s", text, rowsText(model.Tables["t"].Rows),
 			fmt.Sprintf(format, a...))
+	}
+	if err := e.reset(subset); err != nil {
+		fail("", "setting up the contents by insert statements failed: %v", err)
+		return
 	}
 	before := map[string]string{"t": rowsText(model.Tables["t"].Rows), "u": rowsText(model.Tables["u"].Rows)}
 	ut := e.DB.NewUpdateTran()
